@@ -147,7 +147,7 @@ def unique_values(rng, n, negative=False):
 
 def mapping_matrix(rng, n, p, kind=None):
     """Random mapping matrices incl. tiny magnitudes (sparsity-threshold mutants), signs and exact zeros."""
-    kind = kind or ("binary", "fractional", "tiny", "signed", "signed_sparse")[int(rng.integers(5))]
+    kind = kind or ("binary", "fractional", "tiny", "signed", "signed_sparse", "cancelling")[int(rng.integers(6))]
     if kind == "binary":
         M = (rng.random((n, p)) < 0.4).astype(float)
     elif kind == "fractional":
@@ -156,6 +156,21 @@ def mapping_matrix(rng, n, p, kind=None):
         M = np.exp(rng.uniform(np.log(1e-6), 0.0, size=(n, p))) * (rng.random((n, p)) < 0.8)
     elif kind == "signed":
         M = rng.normal(size=(n, p))
+    elif kind == "cancelling":
+        # columns whose entries cancel exactly (+v / -v pairs, 2/-1/-1 ...): sum(column) == 0.0 although the column is not empty
+        M = np.zeros((n, p))
+        for c in range(p):
+            if n >= 2:
+                rows = rng.choice(n, size=min(n, int(rng.integers(2, 5))), replace=False)
+                v = float(rng.choice([1.0, 0.5, 2.0, 0.25]))
+                if len(rows) == 2:
+                    M[rows[0], c], M[rows[1], c] = v, -v
+                elif len(rows) == 3:
+                    M[rows[0], c], M[rows[1], c], M[rows[2], c] = 2 * v, -v, -v
+                else:
+                    M[rows[0], c], M[rows[1], c], M[rows[2], c], M[rows[3], c] = v, v, -v, -v
+            else:
+                M[0, c] = 1.0
     else:
         M = rng.normal(size=(n, p)) * np.exp(rng.uniform(np.log(1e-6), 0.0, size=(n, p))) * (rng.random((n, p)) < 0.6)
     return M, kind
